@@ -66,6 +66,32 @@ def part_a(ck):
         if len(logs) == 1:
             for k in range(3): ck.decide(label + f'J[{3 + k}][{i}] == scaled_axis(F_i.R F.R^-1)[{k}] / eps', eng, list(st.pc), J.at(3 + k, i).v != logs[0].d[k].v / eps, case, nomodel_case=case)
 
+def part_new(ck):
+    """Jacobian::new differentiates with exactly the step it was given (the property speaks of agreement 'to within the differencing step' for steps 1e-7..1e-5) and keeps the matrix compute_jacobian returned"""
+    eng = ck.engine(unwind=8); rec = dict(forward=[], scaled_axis=[], try_inverse=[], pinv=[]); install_oracles(eng, rec)
+    st = eng.new_state(); eps = z3.Real('eps'); st.assume(eps > 0)
+    q = [z3.Real(f'q{i}') for i in range(6)]; calls = []
+    Jm = Mat(6, 6, [F(z3.Real(f'J_{i}_{k}')) for i in range(6) for k in range(6)])
+    def cj(e, st_, fr, f, a):
+        calls.append((e.deref(st_, a[0]), e.deref(st_, a[1]), a[2], list(st_.pc))); return [(st_, Jm)]
+    eng.overrides['jacobian::compute_jacobian'] = cj
+    res = eng.call_body(st, jfn(eng, 'new'), [eng.tmp_ref(st, 0, Opaque('robot')), eng.tmp_ref(st, 0, Agg([F(x) for x in q])), F(eps)]); ck.states += len(res)
+    case = lambda m=None: dict(clause='new_step')
+    label = 'Jacobian::new: '
+    ck.decide(label + 'compute_jacobian is called once on every path', eng, [], z3.BoolVal(len(calls) != len(res) or not res), case, nomodel_case=case)
+    for rob, qs, e1, pc in calls:
+        ck.decide(label + 'the robot passed on is the robot given', eng, [], z3.BoolVal(not (isinstance(rob, Opaque) and rob.kind == 'robot')), case, nomodel_case=case)
+        ok = isinstance(qs, Agg) and len(qs.items) == 6
+        ck.decide(label + 'six joints are passed on', eng, [], z3.BoolVal(not ok), case, nomodel_case=case)
+        if ok:
+            ck.decide(label + 'the joints passed on are the joints given', eng, pc, z3.Or([qs.items[k].v != q[k] for k in range(6)]), case, nomodel_case=case)
+        ck.decide(label + 'the differencing step passed on is the step given', eng, pc, e1.v != eps, case, nomodel_case=case)
+    for s1, out in res:
+        m = out.items[0] if isinstance(out, Agg) and out.items else None
+        ok = isinstance(m, Mat) and len(m.d) == 36
+        ck.decide(label + 'the stored matrix is a 6x6 matrix', eng, [], z3.BoolVal(not ok), case, nomodel_case=case)
+        if ok: ck.decide(label + 'the stored matrix is the one compute_jacobian returned', eng, list(s1.pc), z3.Or([x.v != y.v for x, y in zip(m.d, Jm.d)]), case, nomodel_case=case)
+
 def part_b(ck):
     """d forward / d joint_i against axis x lever arm, from the real MIR of forward and forward_with_joint_poses"""
     eng, st, fwd, poses, pv, off, sg, j, q, sc = c03.setup(ck)
@@ -154,7 +180,7 @@ def run(ck):
     ck.bounds = dict(robot='arbitrary for the finite-difference structure; OPW model with all parameters/offsets/sign symbols free for the derivative identity', eps='any eps > 0')
     ck.assumptions += ['real arithmetic', 'scaled_axis / try_inverse / SVD are nalgebra oracles', 'Taylor remainder (analytic, not solved): |finite difference - derivative| <= eps/2 * sup|second derivative|, which is bounded by the reach of the arm',
                        'J X = I for X = try_inverse(J) (nalgebra contract), so J (X w) = w']
-    part_a(ck); part_b(ck); part_c(ck)
+    part_a(ck); part_new(ck); part_b(ck); part_c(ck)
 
 if __name__ == '__main__':
     main(run, 'C15')
